@@ -483,23 +483,34 @@ impl<'a> World<'a> {
                 let stranger = data::bls_key(plan.seed, 2);
                 let other_owner = data::bls_key(plan.seed, 3);
                 let mut pads: Vec<(u8, Vec<u8>, bool, u64, Vec<u8>)> = vec![]; // (peer, record value, authentic, counter, plaintext)
-                for (i, (peer, counter, form)) in replies.iter().enumerate() {
-                    let plain = format!("vault content c{counter} reply{i}").into_bytes();
-                    let (pad, authentic) = match form {
-                        0 => (data::scratchpad(&owner, &stranger, *counter as u64, &plain, PadForm::Valid), true),
-                        1 => (data::scratchpad(&owner, &stranger, *counter as u64, &plain, PadForm::Unsigned), false),
-                        2 => (data::scratchpad(&owner, &stranger, *counter as u64, &plain, PadForm::ForeignSigner), false),
-                        3 => (data::scratchpad(&owner, &stranger, *counter as u64 + 1, &plain, PadForm::InflatedCounter), false),
-                        _ => (data::scratchpad(&other_owner, &stranger, *counter as u64, &plain, PadForm::Valid), false),
-                    };
-                    self.rep.fault(match form {
+                // a pad is identified by (counter, form, variant): holders replying with the same identity return
+                // byte-identical records (so a version can reach the read's quorum), form / 8 = variant
+                let mut built: BTreeMap<(u8, u8), (Vec<u8>, bool, u64, Vec<u8>)> = BTreeMap::new();
+                for (peer, counter, form) in replies.iter() {
+                    let (f, variant) = (*form % 8, *form / 8);
+                    let entry = built.entry((*counter, *form)).or_insert_with(|| {
+                        let plain = format!("vault content c{counter} f{f} v{variant}").into_bytes();
+                        let (pad, authentic) = match f {
+                            0 => (data::scratchpad(&owner, &stranger, *counter as u64, &plain, PadForm::Valid), true),
+                            1 => (data::scratchpad(&owner, &stranger, *counter as u64, &plain, PadForm::Unsigned), false),
+                            2 => (data::scratchpad(&owner, &stranger, *counter as u64, &plain, PadForm::ForeignSigner), false),
+                            3 => (data::scratchpad(&owner, &stranger, *counter as u64 + 1, &plain, PadForm::InflatedCounter), false),
+                            5 => (data::scratchpad(&owner, &stranger, *counter as u64, &plain, PadForm::SubstitutedContent), false),
+                            _ => (data::scratchpad(&other_owner, &stranger, *counter as u64, &plain, PadForm::Valid), false),
+                        };
+                        // what the owner would read if the pad were accepted
+                        let readable = pad.decrypt_data(&owner).map(|b| b.to_vec()).unwrap_or(plain);
+                        (data::scratchpad_value(&pad), authentic, pad.count(), readable)
+                    });
+                    self.rep.fault(match f {
                         0 => "valid_pad_delivered",
                         1 => "unsigned_pad",
                         2 => "pad_signed_by_other_key",
                         3 => "pad_with_inflated_counter",
+                        5 => "pad_with_substituted_content",
                         _ => "pad_of_other_owner",
                     });
-                    pads.push((*peer % 8, data::scratchpad_value(&pad), authentic, pad.count(), plain));
+                    pads.push((*peer % 8, entry.0.clone(), entry.1, entry.2, entry.3.clone()));
                 }
                 let result = Arc::new(Mutex::new(None));
                 let (client, sk, res) = (self.client.clone(), owner.clone(), result.clone());
@@ -519,11 +530,23 @@ impl<'a> World<'a> {
                 }
                 let key = data::expected_owner_key(&owner.public_key());
                 if let Some((id, _)) = self.open.pop() {
-                    for (peer, value, _, _, _) in &pads {
-                        let rec = Record { key: RecordKey::new(&key), value: value.clone(), publisher: None, expires: None };
-                        self.feed(id, QueryResult::GetRecord(Ok(kad::GetRecordOk::FoundRecord(PeerRecord { peer: Some(self.peers[*peer as usize]), record: rec }))), false);
+                    // only replies that arrive while the read is still open are "received"
+                    let mut received = vec![];
+                    for pad in &pads {
+                        let (peer, value) = (pad.0, pad.1.clone());
+                        if !self.driver.verif_pending_get_record().iter().any(|p| p.query_id == id) {
+                            self.rep.probe("reply_after_the_read_completed");
+                            break;
+                        }
+                        received.push(pad.clone());
+                        let rec = Record { key: RecordKey::new(&key), value, publisher: None, expires: None };
+                        self.feed(id, QueryResult::GetRecord(Ok(kad::GetRecordOk::FoundRecord(PeerRecord { peer: Some(self.peers[peer as usize]), record: rec }))), false);
                         self.drain().await;
                     }
+                    if received.iter().map(|p| &p.1).collect::<HashSet<_>>().len() < received.len() {
+                        self.rep.probe("vault_identical_copies_from_several_holders");
+                    }
+                    pads = received;
                     let rk = RecordKey::new(&key);
                     let term = match finish % 4 {
                         0 => QueryResult::GetRecord(Ok(kad::GetRecordOk::FinishedWithNoAdditionalRecord { cache_candidates: Default::default() })),
